@@ -81,19 +81,30 @@ func c41nodeBounds() c41bounds {
 	}
 }
 
-// c41nodeNests: {"block":{"txns":[ {"dt":{"itx":[ ... ]}} ]}} with the inner-transaction
-// recursion n levels deep; beyond the decoder's 255-call depth budget it must be refused.
+// c41nodeNests: {"block":{"txns":[ T_n ]}} where T_n is a valid transaction whose inner
+// transactions nest n levels deep; beyond the decoder's 255-call depth budget it must be refused.
 func c41nodeNests() map[string][]byte {
+	txn := []byte{0xa3, 't', 'x', 'n', 0x82, 0xa3, 's', 'n', 'd', 0xc4, 0x20}
+	for i := 0; i < 32; i++ {
+		txn = append(txn, byte(i+1))
+	}
+	txn = append(txn, 0xa4, 't', 'y', 'p', 'e', 0xa3, 'p', 'a', 'y')
 	out := map[string][]byte{}
-	for _, n := range []int{8, 120, 127, 128, 250, 256, 300, 5000, 50000} {
+	for _, n := range []int{8, 90, 120, 127, 128, 250, 256, 300, 5000, 50000} {
 		b := []byte{0x81, 0xa5, 'b', 'l', 'o', 'c', 'k', 0x81, 0xa4, 't', 'x', 'n', 's', 0x91}
 		for i := 0; i < n; i++ {
-			b = append(b, 0x81, 0xa2, 'd', 't', 0x81, 0xa3, 'i', 't', 'x', 0x91)
+			b = append(b, 0x82, 0xa2, 'd', 't', 0x81, 0xa3, 'i', 't', 'x', 0x91)
 		}
-		b = append(b, 0x80)
+		b = append(b, 0x81)
+		b = append(b, txn...)
+		for i := 0; i < n; i++ {
+			b = append(b, txn...)
+		}
 		label := fmt.Sprintf("block with inner transactions nested %d deep (map form)", n)
 		if n >= 256 {
 			label = "must-reject: " + label
+		} else if n <= 90 {
+			label = "expect-accept: " + label
 		}
 		out[label] = b
 	}
@@ -108,6 +119,9 @@ func TestVerif_C41_node(t *testing.T) {
 		{proto: new(netPrioResponseSigned), pairs: true},
 		{proto: new(rpcs.EncodedBlockCert), hostile: c41nodeNests()},
 	})
+	if p.sanity.Load() > 0 {
+		t.Fatalf("HARNESS: %d hand-made inputs that must be acceptable were rejected (see evidence notes) — not a verdict", p.sanity.Load())
+	}
 	n := r.Finish(ve.Coverage{
 		Rule:       "part node: netPrioResponse, netPrioResponseSigned, rpcs.EncodedBlockCert — same seeds, mutation classes (T,B,H,K,N,P,O) and oracle as part agreement",
 		Exhaustive: true,
